@@ -515,6 +515,9 @@ class Summariser:
                         return ("obj", None)
                     if isinstance(x, ast.Call) and isinstance(x.func, ast.Name) and x.func.id[:1].isupper():
                         return ("obj", None)  # an instance
+                    if isinstance(x, ast.Call) and isinstance(x.func, ast.Name) and x.func.id in (
+                            "bytes", "bytearray", "list", "dict", "tuple", "set", "frozenset", "str", "int", "len", "bool"):
+                        return ("obj", None)  # the result of a builtin constructor
                     return None
                 kl, kr = kind(l), kind(r)
                 if kl and kr and (kl[0] == "const" or kr[0] == "const"):
